@@ -492,6 +492,8 @@ class Spec:
         pat, flt = self.parse(rule)
         if pat.endswith('*'):
             raise Outside('hook pattern ends with the removal marker')
+        if pat in self.tainted:
+            return                            # still unspecified (an old pair, with its filters, may be there)
         if pat not in self.hooks and pat not in self.routes:
             self.filters[pat] = flt
         h = self.hooks.setdefault(pat, [rule, None, None])
